@@ -329,11 +329,11 @@ func (c *c05Conns) Snapshot() proxy.AppConnSnapshot   { return nil }
 
 type c05Ticker struct{ c chan timeoutInfo }
 
-func (t *c05Ticker) Start() error                 { return nil }
-func (t *c05Ticker) Stop() error                  { return nil }
-func (t *c05Ticker) Chan() <-chan timeoutInfo     { return t.c }
-func (t *c05Ticker) ScheduleTimeout(timeoutInfo)  {}
-func (t *c05Ticker) SetLogger(log.Logger)         {}
+func (t *c05Ticker) Start() error                { return nil }
+func (t *c05Ticker) Stop() error                 { return nil }
+func (t *c05Ticker) Chan() <-chan timeoutInfo    { return t.c }
+func (t *c05Ticker) ScheduleTimeout(timeoutInfo) {}
+func (t *c05Ticker) SetLogger(log.Logger)        {}
 
 // ---------------------------------------------------------------- the decided chain
 
@@ -515,13 +515,13 @@ func (n *c05Node) guarded(eff, raw int, f func() error) (outcome uint64, msg str
 }
 
 type c05Obs struct {
-	outcome                                   uint64
-	storeH, stateH, stateHash, appH, appHash  int64
-	wal                                       []int64
-	respH                                     int64
-	ref                                       bool
-	trace                                     []uint64
-	msg                                       string
+	outcome                                  uint64
+	storeH, stateH, stateHash, appH, appHash int64
+	wal                                      []int64
+	respH                                    int64
+	ref                                      bool
+	trace                                    []uint64
+	msg                                      string
 }
 
 func (n *c05Node) observe(outcome uint64, msg string) c05Obs {
